@@ -526,10 +526,16 @@ impl TryFrom<NaiveDateTime> for IntervalDT {
 
     #[inline]
     fn try_from(dt: NaiveDateTime) -> Result<Self> {
+        // Fractional seconds beyond six digits may have been rounded up to a whole second:
+        // carry it into the seconds, as `Time` and `Timestamp` do.
+        let carry = (dt.usec / USECONDS_PER_SECOND as u32) as i64 * USECONDS_PER_SECOND;
+        let usec = dt.usec % USECONDS_PER_SECOND as u32;
+        let interval = IntervalDT::try_from_dhms(dt.day, dt.hour, dt.minute, dt.sec, usec)?
+            .add_interval_dt(IntervalDT(carry))?;
         if dt.negative {
-            Ok(IntervalDT::try_from_dhms(dt.day, dt.hour, dt.minute, dt.sec, dt.usec)?.negate())
+            Ok(interval.negate())
         } else {
-            IntervalDT::try_from_dhms(dt.day, dt.hour, dt.minute, dt.sec, dt.usec)
+            Ok(interval)
         }
     }
 }
